@@ -182,7 +182,9 @@ def discharge(ob: Obligation, use_cvc5: bool = True, check_vacuity: bool = True)
         # budget - a verdict of sat/unsat is final whenever it is reached, `unknown` stays undecided (exit 2)
         s2 = z3.Solver()
         s2.add(*s.assertions())
-        for seed in (101, 5):
+        # (the seeds of the short attempts again - one of them usually decides the query in seconds of CPU time, which
+        # a loaded machine does not grant within the short wall-clock budget - then two more)
+        for seed in (23, 7, 101, 5):
             s2.set('timeout', 3 * ob.timeout_ms)
             s2.set('random_seed', seed)
             r = s2.check()
